@@ -4,8 +4,15 @@ T  coq/rt/C07Props.v: theorems about the sizes model of the host entry points (e
    classes C07a / C07b, refuted witnesses inside them, history_equiv)
 R  histories of host operations: the model's five sizes (vm_compute) vs the hook `verif_stack_sizes` after
    EVERY step, exactly — including register-number wrap-around after hundreds of leaked registers
-D  after every completed host call the sizes are all zero; probe scripts / calls / displays and the exports map
-   agree with a FRESH instance that performed only the completed effects
+   The alphabet: compile_and_run (ok / throws / runtime error / type check / compile error / timeout, at depth in
+   functions, try/catch, string and sequence construction), call_function, run_unary_op / run_binary_op,
+   value_to_string, imports of real FILE modules (ok / fails at top level / in @main / in a nested import / after a
+   nested import succeeded / compile error; re-imported later), failures inside every kind of native re-entry
+   (arithmetic, comparison, index, @call, @display-in-interpolation, @next overloads; each / keep / fold / sort /
+   retain callbacks; generators) x (throw, runtime error, type check, timeout) x (bare, caught, in a function, in a list)
+D  after every completed host call the sizes are all zero; the operation's own result equals the same operation on
+   a FRESH instance that performed only the completed effects of the earlier operations (so a re-import has to run
+   the module again); probe scripts / calls / displays and the exports map agree with such an instance
 """
 import json
 import os
@@ -203,8 +210,8 @@ def fixed_ops(moddir):
     op("call:timeout", call("spin", []), [f"HCallKoto 0 {fr('spin')} Tick"], timeout=True)
     disp = lambda n: {"op": "display", "name": n}
     op("display:list", disp("l"), ["HDisplay"], disp("l"))
-    op("display:failing-koto-display", disp("bad"), ["HDisplay"])
-    op("display:failing-native-display", disp("badn"), ["HDisplay"])
+    op("display:failing-koto-display", disp("bad"), ["HDisplayFails"])
+    op("display:failing-native-display", disp("badn"), ["HDisplayFails"])
     un = lambda w, n: {"op": "unop", "which": w, "name": n}
     op("unop:negate-number", un("negate", "num"), ["HUnopPlain"], un("negate", "num"))
     op("unop:negate-list", un("negate", "l"), ["HUnopPre"])
@@ -229,14 +236,13 @@ def fixed_ops(moddir):
     op("run:known-witness-cb", run("g = ||\n  try\n    '{throw 1}'\n  catch e\n    'c'\n'a{g()}b'\n"),
        [f"HRun {R} (Str (Call 3 {R} (Try (Str Fail) Nop)))"], run("g = ||\n  try\n    '{throw 1}'\n  catch e\n    'c'\n'a{g()}b'\n"),
        classes=["C07b"])
-    # failing imports (module files are written by the check)
-    main = os.path.join(moddir, "main.koto")
-    op("run:import-failing-module", run("export d1 = 1\nimport failing_mod\nexport d2 = 2\n", path=main),
-       [f"HRun {R} (Import {R} Fail)"], run("export d1 = 1\n"))
-    op("run:import-module-failing-in-str", run("import failing_str_mod\n", path=main),
-       [f"HRun {R} (Import {R} (Str Fail))"], run("null\n"), classes=["C07b"])
-    op("run:import-in-try", run("r = try\n  import failing_mod\ncatch e\n  0\nexport d3 = r\n", path=main),
-       [f"HRun {R} (Try (Import {R} Fail) Nop)"], run("r = try\n  import failing_mod\ncatch e\n  0\nexport d3 = r\n", path=main))
+    # imports of file modules (labels kept for the committed corpus)
+    for lab, o in (("run:import-failing-module", import_op("failing_mod", False, moddir, 0)),
+                   ("run:import-module-failing-in-str", import_op("failing_str_mod", False, moddir, 1)),
+                   ("run:import-in-try", import_op("failing_mod", True, moddir, 2))):
+        o = dict(o)
+        o["label"] = lab
+        ops.append(o)
     return ops
 
 
@@ -250,14 +256,167 @@ def probes_list():
     ]
 
 
+# ---- file modules (materialised under build/cases/c07-mods-<tag>/) ---------------------------------
+# name -> (source, id in the model, behaviour)
+#   behaviour: ("ok", [imports]) | ("fail", model of its body) | ("main-fails",) | ("compile-error",)
+MODULES = {
+    "ok_mod": ("export a = 1\n", 1),
+    "ok_mod2": ("export a = 2\nexport b = [1, 2]\n", 2),
+    "ok_inner": ("export a = 3\n", 3),
+    "failing_mod": ("export a = 1\nthrow 'm'\n", 4),
+    "failing_runtime_mod": ("export a = 1\nexport b = 1 + 'x'\n", 5),
+    "failing_str_mod": ("export a = 'x{throw 2}y'\n", 6),
+    "failing_main_mod": ("export a = 1\nexport @main = || throw 'mm'\n", 7),
+    "outer_ok_mod": ("import ok_inner\nexport a = ok_inner.a\n", 8),
+    "outer_failing_nested_mod": ("export a = 1\nimport failing_mod\nexport b = 2\n", 9),
+    "outer_failing_after_inner_mod": ("import ok_inner\nthrow 'o'\n", 10),
+    "compile_error_mod": ("export a = (\n", 11),
+    "typecheck_mod": ("let t: String = 1\nexport a = t\n", 12),
+}
+
+
 def write_modules(moddir):
     os.makedirs(moddir, exist_ok=True)
-    files = {"failing_mod.koto": "export a = 1\nthrow 'm'\n",
-             "failing_str_mod.koto": "export a = 'x{throw 2}y'\n",
-             "ok_mod.koto": "export a = 1\n", "main.koto": "null\n"}
+    files = {n + ".koto": src for n, (src, _) in MODULES.items()}
+    files["main.koto"] = "null\n"
     for n, t in files.items():
         with open(os.path.join(moddir, n), "w") as f:
             f.write(t)
+
+
+def import_model(name, cached):
+    """model code of `import name` given the set of modules whose exports are cached on this instance
+    (updates `cached`); returns (code, fails, classes)"""
+    mid = MODULES[name][1]
+    if name in cached:
+        return "Nop", False, set()
+    if name in ("ok_mod", "ok_mod2", "ok_inner"):
+        cached.add(name)
+        return f"(Import {mid} {R} Nop)", False, set()
+    if name in ("failing_mod", "failing_runtime_mod", "typecheck_mod"):
+        return f"(Import {mid} {R} Fail)", True, set()
+    if name == "failing_str_mod":
+        return f"(Import {mid} {R} (Str Fail))", True, {"C07b"}
+    if name == "failing_main_mod":
+        return f"(ImportMain {mid} {R} Nop {R} Fail)", True, set()
+    if name == "outer_ok_mod":
+        inner, _, _ = import_model("ok_inner", cached)
+        cached.add(name)
+        return f"(Import {mid} {R} {inner})", False, set()
+    if name == "outer_failing_nested_mod":
+        inner, _, _ = import_model("failing_mod", cached)
+        return f"(Import {mid} {R} {inner})", True, set()
+    if name == "outer_failing_after_inner_mod":
+        inner, _, _ = import_model("ok_inner", cached)     # the inner module stays cached although the outer one fails
+        return f"(Import {mid} {R} (Seq {inner} Fail))", True, set()
+    if name == "compile_error_mod":
+        return "Fail", True, set()                          # compile_module fails before the placeholder exists
+    raise KeyError(name)
+
+
+def import_op(name, caught, moddir, k):
+    """compile_and_run of a script importing file module `name` (between two exports)"""
+    main = os.path.join(moddir, "main.koto")
+    if caught:
+        src = f"export p{k} = 1\nr = try\n  import {name}\n  1\ncatch e\n  0\nexport q{k} = r\n"
+    else:
+        src = f"export p{k} = 1\nimport {name}\nexport q{k} = 2\n"
+
+    def model_fn(state):
+        code, fails, classes = import_model(name, state["cached"])
+        if caught:
+            return [f"HRun {R} (Try {code} Nop)"], classes
+        return [f"HRun {R} {code}"], classes
+
+    _, fails, _ = import_model(name, set())
+    completes = caught or not fails
+    impl = {"op": "run", "src": src, "path": main}
+    ref = impl if completes else {"op": "run", "src": f"export p{k} = 1\n", "path": main}
+    return {"impl": impl, "ref": ref, "model_fn": model_fn, "classes": set(), "label": f"import:{name}" + ("/caught" if caught else ""),
+            "same_ref": completes, "timeout": False}
+
+
+# ---- failures inside each kind of native re-entry ------------------------------------------------------
+RE_BODIES = {   # name -> (koto statements, model of the body, needs a limit)
+    "throw": ("throw 'x'", "Fail", False),
+    "runtime-error": ("y = 1 + 'a'", "Fail", False),
+    "type-check": ("let t: String = 1", "Fail", False),
+    "timeout": ("loop\n  q = 1", "Tick", True),
+    "none": ("y = 1", "Nop", False),
+}
+# name -> (script builder, model builder from the body's model)
+#   same activation: Call;  nested activation on this vm: NBinopKoto / NUnopKoto / NCallKoto;
+#   another (spawned) vm: whatever fails there arrives here as an ordinary error of the instruction (Fail)
+spawned = lambda m: "Nop" if m == "Nop" else "Fail"
+RE_KINDS = {
+    "arith-op": (lambda b: "o =\n  @+: |other|\n" + ind(b, 2) + "\n    1\ns = o + 1", lambda m: f"(NBinopKoto {R} {m})"),
+    "compare-op": (lambda b: "o =\n  @<: |other|\n" + ind(b, 2) + "\n    true\ns = o < 1", lambda m: f"(Call 3 {R} {m})"),
+    "index-op": (lambda b: "o =\n  @index: |i|\n" + ind(b, 2) + "\n    1\ns = o[0]", lambda m: f"(Call 3 {R} {m})"),
+    "call-op": (lambda b: "o =\n  @call: ||\n" + ind(b, 2) + "\n    1\ns = o()", lambda m: f"(Call 3 {R} {m})"),
+    "display-in-interpolation": (lambda b: "o =\n  @display: ||\n" + ind(b, 2) + "\n    'o'\ns = 'v{o}'",
+                                 lambda m: f"(Str (NUnopKoto {R} {m}))"),
+    "next-op": (lambda b: "o =\n  @next: ||\n" + ind(b, 2) + "\n    null\nfor v in o\n  s = v", spawned),
+    "generator": (lambda b: "g = ||\n" + ind(b) + "\n  yield 1\nfor v in g()\n  s = v", spawned),
+    "each": (lambda b: "(1..3).each(|q|\n" + ind(b) + "\n  q\n).consume()", spawned),
+    "keep": (lambda b: "s = (1..3).keep(|q|\n" + ind(b) + "\n  true\n).to_list()", spawned),
+    "fold": (lambda b: "s = (1..3).fold(0, |a, q|\n" + ind(b) + "\n  a\n)", lambda m: f"(NCallKoto 2 {R} {m})"),
+    "sort-key": (lambda b: "s = [2, 1].sort(|q|\n" + ind(b) + "\n  q\n)", lambda m: f"(NCallKoto 1 {R} {m})"),
+    "retain": (lambda b: "s = [2, 1].retain(|q|\n" + ind(b) + "\n  true\n)", lambda m: f"(NCallKoto 1 {R} {m})"),
+}
+SAME_ACTIVATION = ("compare-op", "index-op", "call-op")
+
+
+def reentry_op(kind, body, place, k):
+    """place: bare | caught | in-function | in-function-caught | in-list"""
+    stmts, bmodel, needs_limit = RE_BODIES[body]
+    build, mk = RE_KINDS[kind]
+    src = build(stmts)
+    model = mk(bmodel)
+    fails = bmodel != "Nop"
+    classes = set()
+    if kind == "display-in-interpolation" and fails:
+        classes.add("C07b")
+    if place in ("in-function", "in-function-caught"):
+        src = "f = ||\n" + ind(src) + "\n  1\nf()"
+        model = f"(Call 3 {R} {model})"
+    if place == "in-list":
+        src = "w = [1, (||\n" + ind(src) + "\n  1\n)(), 2]"
+        model = f"(Lst (Call 3 {R} {model}))"
+        if fails:
+            classes.add("C07b")
+    caught = place in ("caught", "in-function-caught")
+    if caught:
+        src = "r = try\n" + ind(src) + "\n  1\ncatch e\n  0\nexport rr = r"
+        model = f"(Try {model} Nop)"
+    # a timeout raised in the activation that holds the try is not catchable; one raised in a nested activation is (C08a)
+    swallowed = caught and not (body == "timeout" and kind in SAME_ACTIVATION)
+    completes = (not fails) or swallowed
+    full = f"export u{k} = 1\n" + src + f"\nexport v{k} = 2\n"
+    impl = {"op": "run", "src": full}
+    ref = impl if completes else {"op": "run", "src": f"export u{k} = 1\n"}
+    return {"impl": impl, "ref": ref, "model": [f"HRun {R} {model}"], "classes": classes,
+            "label": f"reentry:{kind}/{body}/{place}", "same_ref": completes, "timeout": needs_limit}
+
+
+def reentry_ops(quick_rng=None):
+    ops = []
+    k = 0
+    for kind in RE_KINDS:
+        for body in RE_BODIES:
+            for place in ("bare", "caught", "in-function", "in-function-caught", "in-list"):
+                k += 1
+                ops.append(reentry_op(kind, body, place, k % 3))
+    return ops
+
+
+def import_ops(moddir):
+    ops = []
+    k = 0
+    for name in MODULES:
+        for caught in (False, True):
+            k += 1
+            ops.append(import_op(name, caught, moddir, k % 3))
+    return ops
 
 
 def gen_histories(tier, seed, moddir):
@@ -265,6 +424,11 @@ def gen_histories(tier, seed, moddir):
     rng = C.Rng(seed)
     fixed = fixed_ops(moddir)
     by_label = {o["label"]: o for o in fixed}
+    imps = import_ops(moddir)
+    imp_by = {o["label"]: o for o in imps}
+    reent = reentry_ops()
+    for o in imps + reent:
+        by_label.setdefault(o["label"], o)
     hs = []
     cdir = os.path.join(C.VERIF, "corpus", PID)
     if os.path.isdir(cdir):
@@ -294,6 +458,52 @@ def gen_histories(tier, seed, moddir):
     for a in rep:
         for b in rep:
             hs.append({"ops": [a, b], "limit": None, "origin": "pair"})
+    # --- file modules: every import alone; then: import m, another module, m AGAIN (it has to run again unless it
+    # completed), a third module, m inside try
+    names = list(MODULES)
+    for i, name in enumerate(names):
+        for caught in (False, True):
+            lab = f"import:{name}" + ("/caught" if caught else "")
+            o1 = names[(i + 3) % len(names)]
+            o2 = names[(i + 7) % len(names)]
+            hs.append({"ops": [imp_by[lab], imp_by[f"import:{o1}"], imp_by[f"import:{name}"], imp_by[f"import:{o2}/caught"],
+                               imp_by[f"import:{name}/caught"], imp_by[f"import:{name}"]],
+                       "limit": None, "origin": "imports"})
+    n_imp = 40 if tier == "quick" else 600
+    for _ in range(n_imp):
+        k = 2 + rng.below(5 if tier == "quick" else 12)
+        ops = []
+        for _ in range(k):
+            ops.append(rng.choice(imps) if rng.below(4) else rng.choice([o for o in fixed if not o["timeout"]]))
+        hs.append({"ops": ops, "limit": None, "origin": "imports-random"})
+    # --- failures inside native re-entry: every (kind, error, placement) alone (timeouts: a seeded subset in the
+    # quick tier), then random mixes
+    t_ops = [o for o in reent if o["timeout"]]
+    keep_t = set()
+    if tier == "quick":
+        while len(keep_t) < min(10, len(t_ops)):
+            keep_t.add(rng.below(len(t_ops)))
+    for i, o in enumerate(reent):
+        if o["timeout"]:
+            if tier == "quick" and t_ops.index(o) not in keep_t:
+                continue
+            hs.append({"ops": [o], "limit": 300, "origin": "reentry-single"})
+        else:
+            hs.append({"ops": [o, by_label["call:koto-str-ok"]], "limit": None, "origin": "reentry-single"})
+    n_re = 60 if tier == "quick" else 800
+    quick_pool = [o for o in reent if not o["timeout"]]
+    for _ in range(n_re):
+        k = 2 + rng.below(5 if tier == "quick" else 20)
+        ops = []
+        for _ in range(k):
+            r = rng.below(6)
+            if r < 3:
+                ops.append(rng.choice(quick_pool))
+            elif r < 4:
+                ops.append(rng.choice(imps))
+            else:
+                ops.append(rng.choice([o for o in fixed if not o["timeout"]]))
+        hs.append({"ops": ops, "limit": None, "origin": "reentry-random"})
     # random histories
     n = 120 if tier == "quick" else 1500
     maxlen = 6 if tier == "quick" else 30
@@ -307,7 +517,8 @@ def gen_histories(tier, seed, moddir):
                 ops.append(gen_script(rng, allow_timeout and rng.below(3) == 0))
             else:
                 pool = [o for o in fixed if allow_timeout or not o["timeout"]]
-                ops.append(rng.choice(pool))
+                r3 = rng.below(4)
+                ops.append(rng.choice(pool) if r3 < 2 else (rng.choice(imps) if r3 == 2 else rng.choice(quick_pool)))
         # at most 2 timeouts per history (each costs the limit)
         seen = 0
         kept = []
@@ -334,21 +545,38 @@ def gen_histories(tier, seed, moddir):
 
 
 def flatten(h):
-    """-> (main ops for kh_rt, ref ops for kh_rt, model term list, plan)
-    plan: per main step: dict(kind='op'|'probe'|'setup', template, ref_index or None, model_index)"""
+    """-> (main ops for kh_rt, ref ops for kh_rt, model term list, plan, oracles)
+    plan: per main step: dict(kind='op'|'probe'|'setup', t=template, ref=index or None, model=index,
+                              classes=set, oracle=index into oracles or None)
+    oracles: op lists for a FRESH instance: the effect-only versions of the earlier operations, then the operation"""
     main = [{"op": "run", "src": SETUP}]
     ref = [{"op": "run", "src": SETUP}]
     model = [f"HRun {R} Nop"]
-    plan = [{"kind": "setup", "t": None, "ref": 0, "model": 0}]
+    plan = [{"kind": "setup", "t": None, "ref": 0, "model": 0, "classes": set(), "oracle": None}]
+    oracles = []
+    state = {"cached": set()}
+    effects = [{"op": "run", "src": SETUP}]     # effect-only versions of the operations so far
 
-    def add(t, kind):
+    def add(t, kind, want_oracle=False):
         main.append(t["impl"])
         ri = None
         if t.get("ref") is not None:
             ref.append(t["ref"])
             ri = len(ref) - 1
-        model.extend(t["model"])
-        plan.append({"kind": kind, "t": t, "ref": ri, "model": len(model) - 1})
+        classes = set(t.get("classes", ()))
+        if "model_fn" in t:
+            terms, cl = t["model_fn"](state)
+            classes |= cl
+        else:
+            terms = t["model"]
+        model.extend(terms)
+        oi = None
+        if want_oracle:
+            oracles.append(list(effects) + [t["impl"]])
+            oi = len(oracles) - 1
+        if kind == "op" and t.get("ref") is not None:
+            effects.append(t["ref"])
+        plan.append({"kind": kind, "t": t, "ref": ri, "model": len(model) - 1, "classes": classes, "oracle": oi})
 
     def probes():
         for impl, m in probes_list():
@@ -356,13 +584,13 @@ def flatten(h):
 
     for o in h["ops"]:
         if "repeat" in o:
-            for _ in range(o["repeat"]):
-                add(o["of"], "op")
+            for i in range(o["repeat"]):
+                add(o["of"], "op", want_oracle=(i == 0 or i == o["repeat"] - 1))
             probes()
         else:
-            add(o, "op")
+            add(o, "op", want_oracle=True)
             probes()
-    return main, ref, model, plan
+    return main, ref, model, plan, oracles
 
 
 def coq_history(model_terms):
@@ -398,14 +626,51 @@ def run(tier, seed):
     hs = gen_histories(tier, seed, moddir)
     flat = [flatten(h) for h in hs]
     cf = os.path.join(C.BUILD, "cases", f"c07-{os.getpid()}.jsonl")
+    n_oracle = 0
+    oracle_pos = []      # per history: index of its first oracle line
     with open(cf, "w") as f:
-        for h, (main, ref, model, plan) in zip(hs, flat):
+        for h, (main, ref, model, plan, oracles) in zip(hs, flat):
             f.write(json.dumps({"kind": "h", "limit_ms": h["limit"], "ops": main}) + "\n")
             f.write(json.dumps({"kind": "h", "limit_ms": h["limit"], "ops": ref}) + "\n")
-    rc, out = C.sh([binp, cf], timeout=1800)
+        for h, (main, ref, model, plan, oracles) in zip(hs, flat):
+            oracle_pos.append(2 * len(hs) + n_oracle)
+            for ops in oracles:
+                f.write(json.dumps({"kind": "h", "limit_ms": h["limit"], "ops": ops}) + "\n")
+                n_oracle += 1
+    # several processes: the histories with timeouts wait on the clock
+    nsh = 8
+    all_lines = open(cf).read().splitlines()
+    shard_files = []
+    for k in range(nsh):
+        sf = cf + f".{k}"
+        with open(sf, "w") as f:
+            f.write("\n".join(all_lines[k::nsh]) + "\n")
+        shard_files.append(sf)
+    import subprocess
+    procs = [subprocess.Popen([binp, sf], stdout=subprocess.PIPE, stderr=subprocess.DEVNULL, text=True, env=C.ENV)
+             for sf in shard_files]
+    outs = []
+    rc = 0
+    for pr in procs:
+        try:
+            o, _ = pr.communicate(timeout=1800)
+        except subprocess.TimeoutExpired:
+            pr.kill()
+            o, _ = pr.communicate()
+            rc = 124
+        rc = rc or pr.returncode
+        outs.append([l for l in o.splitlines() if l.startswith("{")])
+    for sf in shard_files:
+        os.remove(sf)
     os.remove(cf)
-    lines = [json.loads(l) for l in out.splitlines() if l.startswith("{")]
-    if rc != 0 or len(lines) != 2 * len(hs):
+    lines = [None] * len(all_lines)
+    ok_shape = all(len(outs[k]) == len(all_lines[k::nsh]) for k in range(nsh))
+    out = ""
+    if ok_shape:
+        for k in range(nsh):
+            for j, l in enumerate(outs[k]):
+                lines[k + j * nsh] = json.loads(l)
+    if rc != 0 or not ok_shape:
         chk.log(f"harness run failed rc={rc}: {out[-1000:]}")
         chk.violation("harness", {"kind": "obligation", "correspondence": "kh_rt crashed", "log": out[-2000:]}, no_input=True)
         return chk.finish("n/a")
@@ -415,7 +680,7 @@ def run(tier, seed):
     if model_ok:
         header = "From KV.rt Require Import RtModel RtRun.\nFrom Coq Require Import ZArith List.\nImport ListNotations.\n" \
                  "Open Scope Z_scope.\n"
-        terms = [coq_history(model) for (_, _, model, _) in flat]
+        terms = [coq_history(model) for (_, _, model, _, _) in flat]
         try:
             mvals = C.coq_eval(UNIT, header, terms, tag="c07", per_shard=max(60, len(terms) // 6 + 1))
         except RuntimeError as e:
@@ -427,7 +692,7 @@ def run(tier, seed):
     op_dist = {}
     d_fail = []          # (history index, step, failures)
     disagreements = []   # (history index, step, what)
-    for hi, (h, (main, ref, model, plan)) in enumerate(zip(hs, flat)):
+    for hi, (h, (main, ref, model, plan, oracles)) in enumerate(zip(hs, flat)):
         dist[h["origin"]] = dist.get(h["origin"], 0) + 1
         ms = lines[2 * hi]["steps"]
         rs = lines[2 * hi + 1]["steps"]
@@ -438,7 +703,7 @@ def run(tier, seed):
         for si, p in enumerate(plan):
             t = p["t"]
             if t is not None and p["kind"] == "op":
-                seen_classes |= t["classes"]
+                seen_classes |= p["classes"]
                 op_dist[t["label"].split("@")[0]] = op_dist.get(t["label"].split("@")[0], 0) + 1
                 labels.append(t["label"])
             if si >= len(ms):
@@ -460,11 +725,26 @@ def run(tier, seed):
                 pass
             nontrivial = nontrivial or s["r"].startswith("E")
             sz = s["sz"]
-            # R: sizes vs model
+            # R: sizes, module-cache placeholders and outcome (ok / error) vs model
             if mstate is not None:
                 msz = mstate[1][:5]
                 if msz != sz:
                     disagreements.append((hi, si, f"sizes: implementation {sz}, model {msz}"))
+                elif (mstate[0] == 0) != (not s["r"].startswith("E")):
+                    disagreements.append((hi, si, f"outcome: implementation {s['r']}, model "
+                                                  f"{['Ok', 'Err', 'Err(Timeout)', 'panic'][mstate[0]]}"))
+                if mstate[1][5] != 0:
+                    disagreements.append((hi, si, f"model leaves {mstate[1][5]} module-cache placeholders"))
+            # D3: the operation's own result equals the same operation on a FRESH instance that performed only the
+            # completed effects of the earlier operations
+            if p.get("oracle") is not None:
+                osteps = lines[oracle_pos[hi] + p["oracle"]]["steps"]
+                o = osteps[-1]
+                if "panic" in o or len(osteps) != len(oracles[p["oracle"]]):
+                    fails.append("the fresh reference instance panicked")
+                elif (o["r"], o["out"]) != (s["r"], s["out"]):
+                    fails.append(f"result {s['r']} / output {s['out']!r}; the same operation on a fresh instance that performed "
+                                 f"only the completed effects gives {o['r']} / {o['out']!r}")
             # D1: sizes all zero after every completed host call
             if any(sz):
                 # only leftover builders after an error inside a string / sequence under construction are a known class
@@ -522,15 +802,16 @@ def run(tier, seed):
             if "repeat" in o:
                 out.append({"repeat": o["repeat"], "of": o["of"]["label"], "impl": o["of"]["impl"]})
             else:
-                out.append({"label": o["label"], "impl": o["impl"], "ref": o.get("ref"), "model": o["model"]})
+                out.append({"label": o["label"], "impl": o["impl"], "ref": o.get("ref"), "model": o.get("model", "(depends on cached modules)")})
         return out
 
     if d_fail:
         d_fail.sort(key=lambda x: (len(flat[x[0]][0]), x[1]))
         hi, si, fails = d_fail[0]
-        main, ref, model, plan = flat[hi]
+        main, ref, model, plan, oracles = flat[hi]
         chk.violation("input", {"kind": "input", "history": hist_repr(hi), "limit_ms": hs[hi]["limit"],
                                 "main_ops": main, "ref_ops": ref, "failing_step": si,
+                                "oracle_ops": (oracles[plan[si]["oracle"]] if plan[si].get("oracle") is not None else None),
                                 "step_is": plan[si]["kind"], "impl_says": lines[2 * hi]["steps"][max(0, si - 2):si + 1],
                                 "predicate_failed": fails, "others": len(d_fail) - 1,
                                 "how_to_rerun": "./check C07 --replay <this file>"})
@@ -553,8 +834,12 @@ def run(tier, seed):
         "the model abstracts a script to the structure of its size-relevant effects (frames, builders, try/catch, re-entry "
         "through native functions); what scripts compute, exports and container contents are outside the model and are "
         "covered by the comparison with a fresh instance only",
-        "entry_restores is proved for activations that do not re-enter the vm through native functions (`flat`); re-entrant "
-        "shapes (list.retain callbacks, imports) are covered by the model/hook correspondence, not by the theorem",
+        "entry_restores is proved for activations that do not re-enter the vm through native functions (`flat`), incl. the "
+        "early `?` exits of the entry points; CORRESPONDENCE-ONLY (modelled, compared with the hook, outcome and a fresh "
+        "instance after every step, but not covered by the induction): imports of file modules (placeholder / exports swap), "
+        "overloaded operators and callbacks that run in a nested activation (arithmetic, @display, fold / sort / retain), "
+        "and everything that runs on a spawned vm (generators, @next, each / keep): the latter is modelled as an ordinary "
+        "error of the calling instruction",
         "timeouts inside histories use a 300 ms limit on a shared machine",
     ]
     tb = ["Coq 8.16.1 kernel (coqc); vm_compute for evaluating the model",
@@ -567,7 +852,9 @@ def run(tier, seed):
         rule="histories of host operations on one instance: committed corpus; every operation template alone; ordered pairs of "
              "a representative subset; seeded random histories (length <= 6 quick / 30 thorough) mixing generated scripts "
              "(failure leaf x nested str/list/tuple contexts x function / try placement, with exports and container mutations "
-             "before the failure) and fixed host calls; up to 300 repeats of one failing call followed by ordinary calls. "
+             "before the failure) and fixed host calls; up to 300 repeats of one failing call followed by ordinary calls; "
+             "imports of 12 file modules (each: import, another module, the same module again, a third, the same in try, the "
+             "same again) and seeded mixes; 12 re-entry kinds x 5 bodies x 5 placements alone and in seeded mixes. "
              "After every operation: 5 probes on the instance and on a fresh reference instance. non-trivial = at least one "
              "operation failed; distinct by operation labels",
         explanation="sizes model proved to restore; exact model-vs-hook size equality after every step; sizes zero and "
@@ -598,6 +885,13 @@ def replay(path, args):
     s = ms[si] if si < len(ms) else ms[-1]
     print(json.dumps({k: v for k, v in s.items() if k != "ex"}))
     bad = "panic" in s or any(s.get("sz", [1]))
+    if data.get("oracle_ops") and not bad:
+        with open(cf, "w") as f:
+            f.write(json.dumps({"kind": "h", "limit_ms": data.get("limit_ms"), "ops": data["oracle_ops"]}) + "\n")
+        rc, out = C.sh([binp, cf], timeout=600)
+        o = json.loads(out.splitlines()[0])["steps"][-1]
+        print("fresh instance:", json.dumps({k: v for k, v in o.items() if k != "ex"}))
+        bad = (o.get("r"), o.get("out")) != (s.get("r"), s.get("out"))
     for f in data.get("predicate_failed", []):
         print("  recorded: " + f)
     if bad:
